@@ -4,7 +4,7 @@
  *   {load a | load b (inherits a) | load b vetoed by valid_object | clone a | move(x,y) all pairs | destruct(x) |
  *    become living (enable_commands + set_living_name) | set_heart_beat + call_out | command "v" | tick | cleanup}
  * over a population of <= 4 objects (blueprints a, b; two clones of a), from four initial worlds, with budgeted
- * deviations decided at the entry of every hook (create / init / move_or_destruct / verb function):
+ * deviations decided at the entry of every hook (create / init / move_or_destruct / verb function / heart_beat / call_out callback):
  *   the hook's script {error(), move(any -> any), destruct(any), load a|b, clone, become living, any object calls
  *   set_heart_beat(1), verb returns 1}
  * The real src/simulate.c, lib/lpc/otable.c, lib/lpc/object.c, src/backend.c, lib/efuns/{inventory,command,call_out}.c.
